@@ -104,10 +104,10 @@ func runIsolated(t testing.TB, cases []nodeCase) []isoOut {
 		t.Fatal(err)
 	}
 	done := make([]bool, len(cases))
-	from, spawns := 0, 0
+	from, spawns, early := 0, 0, 0
 	for from < len(cases) {
 		spawns++
-		if spawns > len(cases)+3 {
+		if spawns > 2*len(cases)+6 {
 			t.Fatalf("isolated cases: child restarted %d times for %d cases (harness broken)", spawns, len(cases))
 		}
 		_ = os.Remove(outFile)
@@ -144,8 +144,22 @@ func runIsolated(t testing.TB, cases []nodeCase) []isoOut {
 		}
 		// the child died: on the case it had begun (or before its first case: the harness, not a case)
 		if begun < from {
-			t.Fatalf("isolated cases: the child process died before its first case (%v): %s", runErr, tail.String())
+			// died before its first case: not a case's doing (no port block left, machine out of memory, ...). Try again, then give the
+			// batch up as not explored — never a verdict, never a failure of the run
+			early++
+			if early < 3 {
+				time.Sleep(time.Duration(early) * time.Second)
+				continue
+			}
+			for i := from; i < len(cases); i++ {
+				if !done[i] {
+					results[i] = isoOut{Idx: i, Res: startResult{Crashed: fmt.Sprintf("harness: the child process could not run its cases (%v): %s", runErr, crashLine(tail.String()))}}
+					done[i] = true
+				}
+			}
+			break
 		}
+		early = 0
 		if !done[begun] {
 			results[begun] = isoOut{Idx: begun, Res: startResult{Crashed: fmt.Sprintf("%v: %s", runErr, crashLine(tail.String()))}}
 			done[begun] = true
